@@ -792,6 +792,7 @@ func Run(r *core.Run) {
 	core.ParallelFor(len(c.cases), workers, func(i int) { c.exec(c.cases[i]) })
 	c.report()
 	runOrders(r)
+	runSessionBuffers(r, ps)
 
 	r.Set("evaluations", int(atomic.LoadInt64(&c.evals)))
 	r.Set("distinct_nontrivial", r.NDistinct("cases"))
